@@ -39,6 +39,7 @@ def draw_cfg(st):
     world = ["seq", "threads", "async"][st.weighted([50, 30, 20], "world")]
     cfg = {
         "world": world,
+        "wide": st.choose(4, "wide") == 3,
         "late_remote": True,
         "max_ops": [8, 18, 35][st.choose(3, "size")],
         "max_depth": 1 + st.choose(5, "depth"),
